@@ -105,6 +105,8 @@ def adapter_seqs(ad):
 def make_read(rng, k, ads, C, side=1):
     """A read in which every configured stage has something to do (most of the time)."""
     body = "".join(rng.choice("ACGT") for _ in range(rng.randint(0, 6) if (C.get("_short") and rng.random() < 0.6) else rng.randint(0, 22)))
+    if C.get("_long") and k == 0:
+        body = "".join(rng.choice("ACGT") for _ in range(rng.randint(1001, 1060)))          # a long read (PacBio / Nanopore sized)
     if rng.random() < 0.12:
         body = body.lower() if rng.random() < 0.5 else "".join(rng.choice((c, c.lower())) for c in body)
     if rng.random() < (0.25 if C.get("_dimers") else 0.05):
@@ -251,7 +253,8 @@ SCENARIOS = {
     "C04": [dict(paired=True, info=True, dimers=True), dict(paired=True, info=True, dimers=True, cores=2, buffer_size=300, n_reads=14),
             dict(polya=True, cores=2, buffer_size=250, n_reads=18), dict(polya=True, paired=True, cores=3, buffer_size=400, n_reads=16),
             dict(revcomp=True, cores=2, buffer_size=300, n_reads=16), dict(paired=True, info=True), dict(times=2, n_ads=3), dict(times=3, paired=True), dict(demux="combi", paired=True, duntrim=True),
-            dict(maxaer="0.05"), dict(polya=True), dict(paired=True, polya=True, q="10")],
+            dict(maxaer="0.05"), dict(polya=True), dict(paired=True, polya=True, q="10"),
+            dict(polya=True, longread=True, n_ads=0, n_reads=3, fmt="fasta", plain=True)],
     "C10": [dict(paired=True, cut1=[3], cut2=[], q=None, Q=None, nextseq=None, pairads=True, len2=8, polya=False),
             dict(paired=True, cut1=[2], cut2=[], q=None, Q=None, nextseq=None, revcomp=True, len2=9, polya=False),
             dict(paired=True, cut2=[2], cut1=[], q=None, Q=None, nextseq=None, revcomp=True, len1=9, polya=False),
@@ -540,6 +543,8 @@ def _random_config(rng, focus, S):
     if has_ads and not any(a.get("linked") for a in C.get("ads1", [])) and C.get("ads1") and \
             (S.get("aux") or (f in ("C17", "C09", "C04", "C03") and p(0.35))):
         C["aux"] = True             # --rest-file / --wildcard-file (not defined for linked adapters)
+    if S.get("longread"):
+        C["_long"] = True
     if f == "C10" and p(0.7):
         C["perm_seed"] = rng.randrange(10**6)
     if S.get("only_r1") and C["paired"]:
@@ -619,6 +624,9 @@ def drive(ctx, focus, n_runs, want, reads_per_run=(5, 9), config_hook=None, extr
             C["buffer_size"] = rng.choice((300, 500, 900))
             C["sched_seed"] = rng.randrange(10**6)
             C["sched_weights"] = rng.choice((None, {"W0": 0.05}, {"W1": 0.05}, {"M": 0.1}, {"W0": 5.0}))
+        if C.get("_long"):
+            for key in ("cores", "buffer_size", "sched_seed", "sched_weights"):       # (a record must fit into the buffer)
+                C.pop(key, None)
         if config_hook:
             C = config_hook(rng, C)
             if C is None:
